@@ -57,16 +57,30 @@ def P_up(name, dep, obj, offset, allow=True, rechunk=None):
     return P
 
 
+def _sorted_keys(x):
+    """what json.dumps(sort_keys=True) + json.loads does to the ORDER of every dict (DataDirectory.write_run_metadata)"""
+    if isinstance(x, dict):
+        return {k: _sorted_keys(x[k]) for k in sorted(x)}
+    return x
+
+
 def build(layouts, obj, write, rechunk=None):
     import strax
 
     MemFrontend, _, _ = ctx.make_storage_classes()
-    fe = MemFrontend()
+
+    class SortingFrontend(MemFrontend):
+        """run metadata is stored the way the file-based frontend stores it: keys sorted"""
+
+        def write_run_metadata(self, run_id, metadata):
+            return super().write_run_metadata(run_id, _sorted_keys(metadata))
+
+    fe = SortingFrontend()
     P = [ctx.P_source_runs("src", "ksrc", layouts, obj), P_up("m1", "src", obj, 1, rechunk=rechunk),
          P_up("t1", "m1", obj, 2, rechunk=rechunk)]
     st = ctx.make_context(P, storage=[fe])
     st.set_context_config({"write_superruns": write})
-    runs = sorted(layouts)
+    runs = list(layouts)  # insertion order = order of run start
     for k, r in enumerate(runs):
         fe.write_run_metadata(r, dict(name=r, start=datetime.datetime(2020, 1, 1, 0, 0, 2 * k, tzinfo=pytz.utc),
                                       end=datetime.datetime(2020, 1, 1, 0, 0, 2 * k + 1, tzinfo=pytz.utc), mode="m",
@@ -74,9 +88,11 @@ def build(layouts, obj, write, rechunk=None):
     return st, fe, runs
 
 
-def _layouts(spec, sym, model=None):
-    """spec: {run: rows-per-chunk}; consecutive subruns ordered and disjoint in data time."""
+def _layouts(spec, sym, model=None, names=None):
+    """spec: {run: rows-per-chunk} in order of run start (keys sort that way); consecutive subruns ordered and disjoint
+    in data time.  names: optional {spec key: run id} - run ids whose lexical order differs from the time order."""
     layouts, prev_end, rid = {}, None, 0
+    names = names or {}
     for r in sorted(spec):
         if sym:
             S = fresh_int(f"r{r}_S", 0, H.T_MAX)
@@ -85,7 +101,7 @@ def _layouts(spec, sym, model=None):
             L = ctx.sym_layout(f"r{r}_", spec[r], S, first_id=rid)
         else:
             L = ctx.conc_layout(model, f"r{r}_", spec[r], model[f"r{r}_S"], first_id=rid)
-        layouts[r] = L
+        layouts[names.get(r, r)] = L
         prev_end = L.bounds[-1]
         rid += sum(spec[r])
     return layouts
@@ -129,7 +145,7 @@ def _check(st, fe, runs, layouts, target, write, redefine):
     off = {"m1": 1, "t1": 2}[target]
     # subruns whose data ranges are contiguous and have no zero-duration chunks: the strict statement must hold;
     # with a gap between subruns (absorbed into a chunk by concatenation) see known finding F-C14
-    rs = sorted(layouts)
+    rs = list(layouts)
     nogap = sand(*[layouts[rs[k + 1]].bounds[0] == layouts[rs[k]].bounds[-1] for k in range(len(rs) - 1)],
                  *[L.bounds[j + 1] > L.bounds[j] for L in layouts.values() for j in range(len(L.bounds) - 1)])
     want = []
@@ -170,15 +186,15 @@ def _check(st, fe, runs, layouts, target, write, redefine):
     return [g[0] for g in got]
 
 
-def sym_superrun(spec, target="t1", write=False, redefine=False, rechunk=None):
-    layouts = _layouts(spec, True)
+def sym_superrun(spec, target="t1", write=False, redefine=False, rechunk=None, names=None):
+    layouts = _layouts(spec, True, names=names)
     st, fe, runs = build(layouts, True, write, rechunk)
     st.define_run(SUP, runs)
     return _check(st, fe, runs, layouts, target, write, redefine)
 
 
 def nat_superrun(params, model):
-    layouts = _layouts(params["spec"], False, model)
+    layouts = _layouts(params["spec"], False, model, names=params.get("names"))
     with warnings.catch_warnings():
         warnings.simplefilter("ignore")
         inj = None
@@ -201,6 +217,9 @@ def _grid(tier):
     if tier != "quick":
         specs += [{"0": [1, 1], "1": [1, 1], "2": [2]}, {"0": [1], "1": [1], "2": [1], "3": [1]}, {"0": [2, 1], "1": [1, 2]}]
     g = []
+    # run ids whose lexical order is not the order of run start ("9" before "10")
+    g.append(dict(spec={"0": [1], "1": [1]}, target="m1", names={"0": "9", "1": "10"}))
+    g.append(dict(spec={"0": [1, 1], "1": [2]}, target="t1", write=True, names={"0": "9", "1": "10"}))
     for s in specs:
         for tgt in ("m1", "t1"):
             g.append(dict(spec=s, target=tgt))
